@@ -22,6 +22,7 @@ import (
 )
 
 func init() {
+	commands["conn-c01"] = func(w string) { runConn(w, "C01") }
 	commands["conn-c02"] = func(w string) { runConn(w, "C02") }
 	commands["conn-c03"] = func(w string) { runConn(w, "C03") }
 	commands["conn-c05"] = func(w string) { runConn(w, "C05") }
@@ -497,7 +498,11 @@ func (r *connRun) choices(prop string) []choice {
 	for _, w := range r.msgs.writeGate.list() {
 		w := w
 		cs = append(cs, choice{5, func() { r.writeRet(w, "") }, "write-ok"})
-		cs = append(cs, choice{2, func() {
+		werr := 2
+		if prop == "C01" {
+			werr = 4 // requests that fail to be written while other calls are outstanding
+		}
+		cs = append(cs, choice{werr, func() {
 			r.writeRet(w, []string{"write: broken pipe", "EOF", "The connection is shut down"}[e.Rng.Intn(3)])
 		}, "write-err"})
 	}
@@ -613,6 +618,11 @@ func (r *connRun) endOracles() {
 		err := r.callErr(c)
 		if c.kind != kPing && err == nil && !c.respArrived {
 			r.e.fail("C02-success-without-response", fmt.Sprintf("call %d completed without error but no response for it was decoded", c.id), r.replay())
+		}
+		// C01: every response this harness feeds for a call carries that call's number in its body; a call
+		// that completed without error holds its own reply, never the one addressed to another call
+		if err == nil && len(*c.reply) >= 3 && (*c.reply)[0] == 0xA0 && int((*c.reply)[1]) != c.id {
+			r.e.fail("C01-foreign-reply", fmt.Sprintf("call %d completed without error holding reply %x, which is the reply addressed to call %d", c.id, *c.reply, (*c.reply)[1]), r.replay())
 		}
 		// C03: a fully received response wins over the cut
 		if c.respArrived {
